@@ -16,37 +16,73 @@ from ..model import AnalysisError, norm_text, parent_map, walk_local
 CAL = "tf_pwa/cal_angle.py"
 
 
+def _ref_by_interpretation(repo, chk, fn):
+    import sympy as sp
+
+    from ..sym import SelfObj, Translator, Unmodelled
+
+    class _T(str):
+        tok_attrs = None
+
+    def tok(name, **attrs):
+        t = _T(name)
+        t.tok_attrs = attrs
+        return t
+
+    def world(spec):
+        """spec: list of chains, each a list of (core, [outs])"""
+        parts = {}
+
+        def P(n):
+            return parts.setdefault(n, _T(n))
+        chains = []
+        for ds in spec:
+            chains.append(tuple(tok("%s->%s" % (c, "+".join(o)), core=P(c), outs=[P(x) for x in o]) for c, o in ds))
+        return parts, chains
+
+    worlds = [
+        ("every particle from a top decay", [[("A", ["R0", "D"]), ("R0", ["B", "C"])], [("A", ["R1", "C"]), ("R1", ["B", "D"])], [("A", ["R2", "B"]), ("R2", ["C", "D"])]], ["B", "C", "D"]),
+        ("particles no top decay emits", [[("A", ["R1", "R2"]), ("R1", ["B", "C"]), ("R2", ["D", "E"])], [("A", ["R3", "B"]), ("R3", ["R4", "C"]), ("R4", ["D", "E"])]], ["B", "C", "D", "E"]),
+    ]
+    n = 0
+    for label, spec, finals in worlds:
+        parts, chains = world(spec)
+        outs = [parts[x] for x in finals]
+        grp = SelfObj(None, {"top": parts["A"], "outs": list(outs)})
+        decay_data = {}
+        for k, ch in enumerate(chains):
+            entry = {"b_matrix": {p: ("b", k, str(p)) for p in outs}, "r_matrix": {p: ("r", k, str(p)) for p in outs}}
+            for d in ch:
+                entry[d] = {p: ("frame", k, str(p)) for p in d.tok_attrs["outs"]}
+            decay_data[ch] = entry
+        tr = Translator(repo, hooks={"allow_attr_store": True}, max_depth=2)
+        try:
+            out = tr.call_fn(fn, [grp, list(chains), decay_data, {}])
+        except Unmodelled as e:
+            raise AnalysisError("aligned_angle_ref_rule1 cannot be interpreted (%s): %s" % (label, e))
+        if not (isinstance(out, tuple) and len(out) == 2 and isinstance(out[0], dict) and isinstance(out[1], dict)):
+            raise AnalysisError("aligned_angle_ref_rule1 no longer returns (set_x, reference matrices)")
+        set_x, refm = out
+        bad = None
+        for p in outs:
+            want = next((k for k, ch in enumerate(chains) if any(d.tok_attrs["core"] == parts["A"] and p in d.tok_attrs["outs"] for d in ch)), 0)
+            sx = set_x.get(p)
+            rm = refm.get(p)
+            got = (chains.index(sx[0]) if isinstance(sx, tuple) and sx and sx[0] in chains else None, sx[1] if isinstance(sx, tuple) and len(sx) > 1 else None, rm.get("b_matrix") if isinstance(rm, dict) else None, rm.get("r_matrix") if isinstance(rm, dict) else None)
+            exp = (want, ("frame", want, str(p)), ("b", want, str(p)), ("r", want, str(p)))
+            if got != exp and bad is None:
+                bad = "particle %s: set_x names chain %s with the frame %s, the reference matrices are %s / %s; expected chain %d throughout" % (p, got[0], got[1], got[2], got[3], want)
+        n += 1
+        chk.oblige("R-ref", "aligned_angle_ref_rule1 (%s): frame and reference matrices of every final particle come from one chain, the expected one" % label, bad is None)
+        if bad:
+            chk.violation("R-ref", fn.key, "world%d" % n, "%s - %s: the alignment rotation is then built from the frame of one chain and the boost / rotation matrix of another, so the density depends on the order of the chains" % (label, bad), file=CAL, line=fn.lineno)
+
+
 def check_ref(repo, chk):
-    chk.rule("R-ref", "in aligned_angle_ref_rule1 the chain stored in set_x[i], the chain stored in ref_matrix[i] and the chain indexing decay_data are the same expression in every block")
+    chk.rule("R-ref", "aligned_angle_ref_rule1 interpreted on two groups of chains (every final particle emitted by the top decay of some chain; particles that no top decay emits) with the per-chain data as probes: for every final particle the reference frame in set_x and the reference matrices come from ONE chain - the first chain whose top decay emits the particle, else the first chain")
     chk.rule("R-carry", "in tf_pwa/cal_angle.py no augmented update of a local inside a for loop is preceded, in the same loop body, by a plain re-initialisation of that local (the carried value would be dead)")
     fn = repo.fn(CAL + "::aligned_angle_ref_rule1")
-    pm = parent_map(fn.node)
-    stores_x = [n for n in walk_local(fn.node) if isinstance(n, ast.Assign) and isinstance(n.targets[0], ast.Subscript) and norm_text(n.targets[0].value) == "set_x"]
-    n_blocks = 0
-    has_ref_matrix = any(isinstance(n, ast.Assign) and isinstance(n.targets[0], ast.Subscript) and norm_text(n.targets[0].value) == "ref_matrix" for n in walk_local(fn.node))
-    for sx in stores_x:
-        block = pm[sx].body if hasattr(pm[sx], "body") and sx in pm[sx].body else None
-        if block is None:
-            for fld in ("orelse", "finalbody"):
-                if sx in getattr(pm[sx], fld, []):
-                    block = getattr(pm[sx], fld)
-        if block is None or not isinstance(sx.value, ast.Tuple):
-            continue
-        key = norm_text(sx.targets[0].slice)
-        chain = norm_text(sx.value.elts[0])
-        rm = [n for n in block if isinstance(n, ast.Assign) and isinstance(n.targets[0], ast.Subscript) and norm_text(n.targets[0].value) == "ref_matrix" and norm_text(n.targets[0].slice) == key]
-        dd = [n for n in block if isinstance(n, ast.Assign) and isinstance(n.value, ast.Subscript) and isinstance(n.value.value, ast.Subscript) and norm_text(n.value.value.value) == "decay_data"]
-        n_blocks += 1
-        ref = norm_text(rm[0].value) if rm else None
-        src = norm_text(dd[0].value.value.slice) if dd else None
-        # the second bookkeeping dict is optional (the chain can be read back from set_x[i][0]); if the function keeps
-        # one, every block that records a reference must fill it with the same chain
-        ok = (ref == chain and bool(rm) if has_ref_matrix else True) and (src is None or src == chain)
-        chk.instance("R-ref", "aligned_angle_ref_rule1: set_x[%s] chain=%s, ref_matrix[%s]=%s, decay_data[%s]: %s" % (key, chain, key, ref, src, ok))
-        if not ok:
-            chk.violation("R-ref", fn.key, "block%d" % n_blocks, "the reference recorded for particle `%s` is inconsistent: set_x uses chain `%s`, ref_matrix uses `%s`, reference data come from decay_data[%s]" % (key, chain, ref, src), file=CAL, line=sx.lineno)
-    if n_blocks < 2:
-        raise AnalysisError("aligned_angle_ref_rule1: fewer than 2 reference-recording blocks found")
+    _ref_by_interpretation(repo, chk, fn)
     # loop-carried updates
     m = repo.mod(CAL)
     n_aug = 0
